@@ -435,6 +435,13 @@ def check(case):
             bad.append(("readback-" + err.key, idx, exp[idx], err.message))
         elif not _same(val, exp[idx]):
             bad.append(("wrong-readback:%s" % o["type"], idx, exp[idx], val))
+        else:
+            # the other documented accessor of a section gives the same value
+            got, err = call_real(lambda: config[o["section"]].get(o["key"]))
+            if err is not None:
+                bad.append(("readback-get-" + err.key, idx, exp[idx], err.message))
+            elif not _same(got, exp[idx]):
+                bad.append(("wrong-readback:get:%s" % o["type"], idx, exp[idx], got))
     if bad:
         # report the first mismatch that is not a listed known finding, so that the
         # search continues behind one
@@ -468,6 +475,12 @@ def _compare_all(config, case, tag, detail):
         elif not _same(val, exp[idx]):
             bad.append(("wrong-readback-after-earlier-read:%s" % o["type"] if tag != "defaults"
                         else "wrong-readback:%s" % o["type"], idx, exp[idx], val))
+        else:
+            got, err = call_real(lambda: config[o["section"]].get(o["key"]))
+            if err is not None:
+                bad.append(("readback-get-" + err.key, idx, exp[idx], err.message))
+            elif not _same(got, exp[idx]):
+                bad.append(("wrong-readback:get:%s" % o["type"], idx, exp[idx], got))
     if bad:
         pick = next((b for b in bad if b[0] not in KNOWN), bad[0])
         return fail(pick[0], dict(detail, after=tag, option="%s.%s" % pick[1], expected=repr(pick[2]),
